@@ -13,6 +13,7 @@ import itertools
 import numpy as np
 
 import fsic
+from fsic.extensions import AliasMixin, TracerMixin
 from fsic.core import BaseLinker, BaseModel
 
 from .. import refsolve
@@ -84,6 +85,11 @@ class Lk(BaseLinker):
         d['n'] += 1
         self._L[t] += step(o, d['tol'])
         self._M[t] -= 100.0
+        # the linker's own code may write to submodels it was not asked to solve: their check variables are NOT part of the convergence test
+        sel = kw.get('submodels')
+        for k, sub in self.submodels.items():
+            if sel is not None and k not in sel:
+                sub._A[t] += 8.0
 
     def solve_t_before(self, t, **kw):
         LOG.append(('solve_pre',))
@@ -103,6 +109,9 @@ def make(nsub, scripts, tol, sel_actors):
     lk.__dict__.update(n=0, script=list(scripts[0]), tol=tol)
     for a, sc in zip(sel_actors, scripts[1:]):
         subs[a].__dict__['script'] = list(sc)
+    for i in subs:
+        if i not in sel_actors:
+            subs[i].B = float('nan')  # an unselected submodel may hold anything, a placeholder NaN in a check variable included
     return lk, subs
 
 
@@ -235,12 +244,28 @@ def run_scripted(block, tier, acc):
 # --------------------------------------------------------------------------- bare-model law
 
 
+_STACKED = {}
+
+
+def _stacked_instance(i, like):
+    if i not in _STACKED:
+        base = c02.cat_model(i)
+        _STACKED[i] = type('Stacked', (AliasMixin, TracerMixin, base), {'ALIASES': {'first_variable': base.NAMES[0]}})
+    w = _STACKED[i](range(6))
+    for name in like.names:
+        w[name] = like[name].copy()
+    return w
+
+
 @robust()
 def run_bare_case(case):
     i, dv = case['i'], case['dv']
     kw = dict(min_iter=case['min_iter'], max_iter=case['max_iter'], tol=case['tol'], failures='ignore', offset=case.get('offset', 0))
     m = c02.cat_instance(i, dv)
     w = c02.cat_instance(i, dv)
+    if case.get('stacked'):
+        # the wrapped submodel carries the library's own mixins (tracing off, aliases unused): the law is the same
+        w = _stacked_instance(i, w)
     lk = BaseLinker({'m': w})
     t = case['t']
     if case.get('pre') == 'one-pass':
@@ -281,6 +306,12 @@ def run_bare(block, tier, acc):
                             acc.transitions += 2
                             acc.traces += 1
                             acc.nontrivial += 1
+                            if offset == 0 or pre:
+                                case_s = dict(case, stacked=True)
+                                acc.evaluations += 1
+                                acc.nontrivial += 1
+                                for key, exp, obs, what in run_bare_case(case_s):
+                                    acc.violation(key + ':stacked-mixins', case_s, exp, obs, what)
                             for key, exp, obs, what in run_bare_case(case):
                                 acc.violation(key + (':max_iter=0' if max_iter == 0 else '') + (':offset' if offset else ''), case, exp, obs, what)
 
